@@ -97,9 +97,10 @@ class GeminiProtocol(BaseGopherProtocol):
         return mimetype
 
     def renderobjinfo(self, entry):
-        if re.match("(/|)URL:", entry.getselector()):
+        urlmatch = re.match("(/|)URL:(.+)$", entry.getselector())
+        if urlmatch:
             # It's a plain URL.  Make it that.
-            url = re.match("(/|)URL:(.+)$", entry.getselector()).group(2)
+            url = urlmatch.group(2)
         elif (not entry.gethost()) and (not entry.getport()):
             # It's a link to our own server.  Make it as such.  (relative)
             selector = entry.getselector().encode(errors="surrogateescape")
